@@ -543,10 +543,10 @@ func parseFuncHeader(h string) (name string, formals, results []string, err erro
 
 // ParseSpecFile reads //@ lines from a file. pkgPath is used to qualify
 // relative function/type names ("" for trusted spec files, which use full names).
-func (ss *SpecSet) ParseSpecFile(file, pkgPath string) error {
-	data, err := os.ReadFile(file)
-	if err != nil {
-		return err
+func (ss *SpecSet) ParseSpecFile(file, pkgPath string) (err error) {
+	data, rerr := os.ReadFile(file)
+	if rerr != nil {
+		return rerr
 	}
 	var lines []string
 	var lnos []int
